@@ -11,21 +11,21 @@ TEXT = {
     "C01": ("online trace checker over the fraction history (in-process and CLI Gain / Loss Detail): no available lot may strictly outrank the chosen lot under the method in force", "runtime monitoring: offline checker over recorded fraction traces against the input lots (ordering)"),
     "C02": ("conservation checker over the fraction trace (per-event coverage, per-lot prefix sums, lot-before-event) plus must-fail / must-succeed decided from the input; CLI exit status and Sent/Sold % read-back", "runtime monitoring: conservation checker over recorded traces + fail-closed observation at the process boundary"),
     "C03": ("exactly-once / no-loss checker between input rows and reported taxable events and fractions (in-process and CLI reports)", "runtime monitoring: exactly-once checker between producer rows and consumer events"),
-    "C04": ("every fraction recomputed in exact rational arithmetic from the input fields (1e-15 bound, re-assembly), sys.monitoring CALL monitor for binary floats, exact canary inputs", "runtime monitoring: reference-arithmetic oracle + sys.monitoring float-intrusion detector"),
+    "C04": ("every fraction recomputed in exact rational arithmetic from the input fields (1e-15 bound, re-assembly), sys.monitoring CALL monitor for binary floats, exact canary inputs; CLI slice: Proceeds / Cost Basis / Gain of the detail table and of tax_report_us.ods recomputed from the spreadsheet rows", "runtime monitoring: reference-arithmetic oracle + sys.monitoring float-intrusion detector"),
     "C05": ("boundary workload around the holding-period threshold of every country plugin; each fraction's flag compared with whole days between UTC instants (in-process and CLI reports)", "runtime monitoring: oracle on observed long/short flags under a boundary workload"),
     "C06": ("yearly lines compared with exact sums over the observed fractions per (own-year, asset, type, long/short), with to/from dates; CLI Summary sheet vs detail table", "runtime monitoring: conservation checker (summary = sum of detail) over observed runs"),
-    "C07": ("reported balances compared with per-account flows recomputed from the input, reconciliation of final balances with unconsumed lots of the observed trace; CLI Account Balances table", "runtime monitoring: conservation checker over observed balances and traces"),
-    "C08": ("three-valued temporal overdraft oracle over the input vs observed acceptance / rejection with both -n values (in-process and CLI exit status, error text, output directory)", "runtime monitoring: temporal oracle on accept/reject outcomes under overdraft mutations"),
+    "C07": ("reported balances compared with per-account flows recomputed from the input, reconciliation of final balances with unconsumed lots of the observed trace, with to-dates, from-dates and both -n values; CLI Account Balances table", "runtime monitoring: conservation checker over observed balances and traces"),
+    "C08": ("three-valued temporal overdraft oracle over the input vs observed acceptance / rejection with both -n values (in-process and CLI exit status, error text, output directory), also seen through from / from+to windows", "runtime monitoring: temporal oracle on accept/reject outcomes under overdraft mutations"),
     "C09": ("relational monitor: prefix run vs extended run for every cut point and tempting continuation; to-date run vs truncated history (in-process and CLI report pairs)", "runtime monitoring: relational checker over pairs of runs (prefix vs extension)"),
-    "C10": ("relational monitor: filtered vs unfiltered vs to-only runs (rows shown, figures, labels, balances, average price, yearly lines), in-process and CLI report pairs", "runtime monitoring: relational checker over pairs of runs (filtered vs unfiltered)"),
+    "C10": ("relational monitor: filtered vs unfiltered vs to-only runs (rows shown, figures, labels, balances, average price, yearly lines), absolute recount of the k/n labels from the unfiltered trace, -n relation for valid histories, in-process and CLI report pairs", "runtime monitoring: relational checker over pairs of runs (filtered vs unfiltered)"),
     "C11": ("parse_ods output compared field by field with generator-owned ground-truth rows over random column layouts, table orders, junk columns and blank rows; CLI In/Out/Intra-Flow tables", "runtime monitoring: exactly-once field-by-field checker of parsed transactions against ground truth"),
     "C12": ("every documented fault class injected at the applicable sheet / table / row / field / section positions of valid inputs; real CLI runs observed at the process boundary (exit status, message, no report written)", "runtime monitoring: fault injection with process-boundary observation"),
     "C13": ("every cell of rp2_full_report.ods written by real CLI runs read back and compared with the input and with the same tree's ComputedData (values, formula payloads, labels, table sizes, Legend)", "runtime monitoring: read-back monitor on written artefacts"),
     "C14": ("every row of every sheet of tax_report_us.ods / tax_report_ie.ods read back: multiset of rows equals the window's fractions, each on the sheet of its type, empty sheets absent, no row lost or overwritten", "runtime monitoring: read-back monitor on written artefacts (routing + completeness)"),
-    "C15": ("open_positions.ods read back and reconciled with the balance model, the observed fraction trace of the same run and the conservation law realized + unrealized = acquired", "runtime monitoring: read-back monitor + conservation checker across reports of one run"),
-    "C16": ("the whole option matrix (136 tuples) enumerated per generated input and run through the real CLI; exit status, stderr and produced files observed", "runtime monitoring: process-boundary observation over the enumerated option matrix"),
-    "C17": ("relational monitors over tuples of real runs: hash seeds, pre-filled output directory, permuted rows / tables / sheets, asset subsets; semantic content of every report compared", "runtime monitoring: relational checker over tuples of runs (metamorphic relations)"),
-    "C18": ("interpreter audit hooks injected into every CLI subprocess (sockets, spawn, exec, file writes, imports with direct importer) cross-checked by strace at syscall level, input hashes, import sweep of all modules", "runtime monitoring: audit-hook and syscall-trace monitors"),
+    "C15": ("open_positions.ods read back and reconciled with the balance model, the observed fraction trace of the same run and the conservation law realized + unrealized = acquired; cross-report reconciliation of the reports of one run under to-date cuts between inverted own dates", "runtime monitoring: read-back monitor + conservation checker across reports of one run"),
+    "C16": ("the whole option matrix (136 tuples, each with its own window) plus [accounting_methods] schedules enumerated per generated input (shapes incl. inverted own dates, same-instant transfer then sale) and run through the real CLI; exit status, stderr and produced files observed", "runtime monitoring: process-boundary observation over the enumerated option matrix"),
+    "C17": ("relational monitors over tuples of real runs: hash seeds, pre-filled output directory, permuted rows / tables / sheets (CLI, and in-process at volume with sub-second timestamps), asset subsets, second run in one interpreter; semantic content of every report compared", "runtime monitoring: relational checker over tuples of runs (metamorphic relations)"),
+    "C18": ("interpreter audit hooks injected into every CLI subprocess (sockets, spawn, exec, file writes, imports with direct importer) cross-checked by strace at syscall level, input hashes, import sweep of all modules; workload includes every environment variable RP2 was observed consulting, C12's fault catalogue, hard errors and large inputs", "runtime monitoring: audit-hook and syscall-trace monitors"),
     "C19": ("every HYPERLINK formula of the Tax and Summary sheets parsed and its target row compared with the transaction it stands for; hidden transactions must carry no link", "runtime monitoring: read-back monitor on written artefacts (link targets)"),
     "C20": ("sheet names, transaction rows and cross-sheet formula text of tax_report_jp.ods read back: sheet set, rows vs input, opening balances chained to the structurally located closing cells of the most recent earlier year", "runtime monitoring: read-back monitor on written artefacts (sheet set + formula chaining)"),
 }
@@ -74,7 +74,7 @@ manifest = {
             "name": "rpv",
             "path": "/verif/rpv",
             "serves_properties": [c["property_id"] for c in checks],
-            "kind_free_text": "runtime monitoring framework: seeded hostile workload generators, in-process and CLI drivers of the real code, offline trace / relational / read-back / audit oracles, mutation self-test (python -m rpv.selftest)",
+            "kind_free_text": "runtime monitoring framework: seeded hostile workload generators plus the repository's own example inputs, in-process and CLI drivers of the real code, offline trace / relational / read-back / audit oracles, mutation self-test (python -m rpv.selftest)",
         }
     ],
     "checks": checks,
